@@ -6,7 +6,8 @@ case becomes the replay."""
 import json, os, subprocess, sys, time, itertools
 
 ROOT = "/verif"
-BINS = {"stable-default": f"{ROOT}/target-stable/release/mc", "nightly": f"{ROOT}/target-nightly/release/mc", "nightly+simd_backend": f"{ROOT}/target-simd/release/mc"}
+BINS = {"stable-default": f"{ROOT}/target-stable/release/mc", "nightly": f"{ROOT}/target-nightly/release/mc", "nightly+simd_backend": f"{ROOT}/target-simd/release/mc",
+        "nightly-plain-release(no debug assertions, no overflow checks)": f"{ROOT}/target-nightly/plain/mc"}
 TIER = os.environ.get("VERIF_TIER", "quick"); SEED = int(os.environ.get("VERIF_SEED", "0") or 0)
 
 def probe(b, *args):
@@ -19,7 +20,7 @@ def main():
     t0 = time.time()
     try:
         from concurrent.futures import ThreadPoolExecutor
-        with ThreadPoolExecutor(3) as ex:
+        with ThreadPoolExecutor(len(BINS)) as ex:
             outs = dict(zip(BINS, ex.map(lambda b: json.loads(probe(b).strip().splitlines()[-1]), BINS.values())))
     except Exception as e:
         print(f"MACHINERY-ERROR property=C18 {e}"); return 2
@@ -51,15 +52,15 @@ def main():
             print(f"KNOWN-FINDING: property=C18 {k['what']} [{k['signature']}]")
     os.makedirs(f"{ROOT}/replays/C18", exist_ok=True)
     ev = dict(property_id="C18", tier=TIER, seed=SEED, level="exploration",
-              coverage=dict(evaluations=total_cases * 3 + container_cases, distinct_nontrivial=total_cases + container_cases,
-                            rule="the probe enumerates the same corpus in every build configuration (BLAKE2b (outlen,keylen,len) grid, SHA-512/HMAC lengths, 2-/3-way chunkings of generic hash/SHA-512/auth/signing, Argon2 grids G1-G3 at small cost, KDF grid, X25519 scalar x point table, kx session keys, Ed25519 pure and pre-hashed signatures, every box/secretbox/sealed-box encrypt form at every length 0..=130 with the ephemeral key pinned); section digests (SHA-512 by libsodium over ordered (case id, output)) are compared for all 3 pairs of configurations; nightly builds additionally compute each container-leg operation through stack, Vec, heap and locked containers and require identical bytes; non-trivial = distinct corpus case (each is executed in 3 configurations)",
+              coverage=dict(evaluations=total_cases * len(BINS) + container_cases, distinct_nontrivial=total_cases + container_cases,
+                            rule="the probe enumerates the same corpus in every build configuration (BLAKE2b (outlen,keylen,len) grid, SHA-512/HMAC lengths, 2-/3-way chunkings of generic hash/SHA-512/auth/signing, Argon2 grids G1-G3 at small cost, KDF grid, X25519 scalar x point table, kx session keys, Ed25519 pure and pre-hashed signatures, every box/secretbox/sealed-box encrypt form at every length 0..=130 with the ephemeral key pinned); section digests (SHA-512 by libsodium over ordered (case id, output)) are compared for all pairs of the 4 configurations (the three of the statement plus the nightly build without debug assertions and overflow checks, i.e. what a downstream --release build executes); nightly builds additionally compute each container-leg operation through stack, Vec, heap and locked containers and require identical bytes; non-trivial = distinct corpus case (each is executed in 4 configurations)",
                             samples=[dict(section=s, cases=outs["stable-default"]["sections"][s]["cases"], digest=outs["stable-default"]["sections"][s]["digest"][:32]) for s in secs[:3]],
                             exhaustive=True, configurations=list(BINS), sections={s: outs["stable-default"]["sections"][s]["cases"] for s in secs}, section_pairs_compared=compared, container_cases=container_cases),
               assumptions=["target-CPU specific intrinsics back-ends of third-party crates are not part of the configuration set", "transcript digests are computed with libsodium's SHA-512, not with the code under test"],
               wall_s=round(time.time() - t0, 2), violations=len(real))
     os.makedirs(f"{ROOT}/evidence", exist_ok=True)
     json.dump(ev, open(f"{ROOT}/evidence/C18.json", "w"), indent=1)
-    print(f"[C18] configurations=3 sections={len(secs)} corpus_cases={total_cases} container_cases={container_cases} wall={time.time()-t0:.1f}s")
+    print(f"[C18] configurations={len(BINS)} sections={len(secs)} corpus_cases={total_cases} container_cases={container_cases} wall={time.time()-t0:.1f}s")
     if real:
         for v in real:
             path = f"{ROOT}/replays/C18/{''.join(c if c.isalnum() else '_' for c in v['sig'])[:80]}.json"
